@@ -8,3 +8,316 @@
 //! composer snapshot types. See `composer/verif.rs`.
 
 pub use crate::composer::{VerifGate, VerifSnapshot};
+
+pub use kernels::*;
+
+/// Thin public wrappers over the crate-private FFT, polynomial and KZG
+/// kernels. Each wrapper forwards its arguments unchanged and adds no logic of
+/// its own, so that an external harness observes exactly what the prover and
+/// verifier observe.
+mod kernels {
+    use alloc::vec::Vec;
+
+    use dusk_bls12_381::{BlsScalar, G1Affine};
+    use merlin::Transcript;
+
+    use crate::commitment_scheme::{
+        AggregateProof, CommitKey, Commitment, KzgProof, PublicParameters,
+    };
+    use crate::error::Error;
+    use crate::fft::{EvaluationDomain, Polynomial};
+    use crate::proof_system::proof::alloc as proof_alloc;
+
+    fn domain(num_coeffs: usize) -> Result<EvaluationDomain, Error> {
+        EvaluationDomain::new(num_coeffs)
+    }
+
+    /// `(size, log2 size, group generator, group generator inverse, size
+    /// inverse, coset generator inverse)` of the domain built for
+    /// `num_coeffs` coefficients.
+    pub fn domain_params(
+        num_coeffs: usize,
+    ) -> Result<(usize, u32, BlsScalar, BlsScalar, BlsScalar, BlsScalar), Error>
+    {
+        let d = domain(num_coeffs)?;
+        Ok((
+            d.size(),
+            d.log_size_of_group,
+            d.group_gen,
+            d.group_gen_inv,
+            d.size_inv,
+            d.generator_inv,
+        ))
+    }
+
+    /// `EvaluationDomain::fft`
+    pub fn fft(
+        num_coeffs: usize,
+        v: &[BlsScalar],
+    ) -> Result<Vec<BlsScalar>, Error> {
+        Ok(domain(num_coeffs)?.fft(v))
+    }
+
+    /// `EvaluationDomain::ifft`
+    pub fn ifft(
+        num_coeffs: usize,
+        v: &[BlsScalar],
+    ) -> Result<Vec<BlsScalar>, Error> {
+        Ok(domain(num_coeffs)?.ifft(v))
+    }
+
+    /// `EvaluationDomain::coset_fft`
+    pub fn coset_fft(
+        num_coeffs: usize,
+        v: &[BlsScalar],
+    ) -> Result<Vec<BlsScalar>, Error> {
+        Ok(domain(num_coeffs)?.coset_fft(v))
+    }
+
+    /// `EvaluationDomain::coset_ifft`
+    pub fn coset_ifft(
+        num_coeffs: usize,
+        v: &[BlsScalar],
+    ) -> Result<Vec<BlsScalar>, Error> {
+        Ok(domain(num_coeffs)?.coset_ifft(v))
+    }
+
+    /// `EvaluationDomain::evaluate_all_lagrange_coefficients`
+    pub fn lagrange_coefficients(
+        num_coeffs: usize,
+        tau: BlsScalar,
+    ) -> Result<Vec<BlsScalar>, Error> {
+        Ok(domain(num_coeffs)?.evaluate_all_lagrange_coefficients(tau))
+    }
+
+    /// `EvaluationDomain::evaluate_vanishing_polynomial`
+    pub fn vanishing_eval(
+        num_coeffs: usize,
+        tau: &BlsScalar,
+    ) -> Result<BlsScalar, Error> {
+        Ok(domain(num_coeffs)?.evaluate_vanishing_polynomial(tau))
+    }
+
+    /// `EvaluationDomain::compute_vanishing_poly_over_coset`; the degree
+    /// must be below the domain size (the kernel asserts it).
+    pub fn vanishing_over_coset(
+        num_coeffs: usize,
+        poly_degree: u64,
+    ) -> Result<Vec<BlsScalar>, Error> {
+        Ok(domain(num_coeffs)?
+            .compute_vanishing_poly_over_coset(poly_degree)
+            .evals)
+    }
+
+    /// `matches_linear_poly_over_coset` / `matches_vanishing_poly_over_coset`
+    pub fn coset_matchers(
+        num_coeffs: usize,
+        poly_degree: u64,
+        linear: &[BlsScalar],
+        vanishing: &[BlsScalar],
+    ) -> Result<(bool, bool), Error> {
+        let d = domain(num_coeffs)?;
+        Ok((
+            d.matches_linear_poly_over_coset(linear),
+            d.matches_vanishing_poly_over_coset(poly_degree, vanishing),
+        ))
+    }
+
+    /// `compute_barycentric_eval` of `proof_system::proof`
+    pub fn barycentric_eval(
+        num_coeffs: usize,
+        evaluations: &[BlsScalar],
+        point: &BlsScalar,
+    ) -> Result<BlsScalar, Error> {
+        let d = domain(num_coeffs)?;
+        Ok(proof_alloc::compute_barycentric_eval(evaluations, point, &d))
+    }
+
+    /// The verifier's fused `(L_1(point), PI(point))` evaluation for public
+    /// inputs on the given rows.
+    pub fn fused_lagrange_pi(
+        num_coeffs: usize,
+        rows: &[usize],
+        evaluations: &[BlsScalar],
+        point: &BlsScalar,
+    ) -> Result<(BlsScalar, BlsScalar), Error> {
+        let d = domain(num_coeffs)?;
+        let roots: Vec<_> = rows
+            .iter()
+            .map(|row| d.group_gen_inv.pow(&[*row as u64, 0, 0, 0]))
+            .collect();
+        let z_h = d.evaluate_vanishing_polynomial(point);
+        proof_alloc::verif_lagrange_and_barycentric_evaluations(
+            &roots,
+            evaluations,
+            point,
+            &z_h,
+            &d,
+        )
+    }
+
+    /// `util::batch_inversion`
+    pub fn batch_inversion(v: &mut [BlsScalar]) {
+        crate::util::batch_inversion(v)
+    }
+
+    /// A polynomial of the crate's own type. Values are only created by
+    /// [`VerifPoly::new`] (the crate's normalising constructor) and by the
+    /// operations themselves, so non-normalised forms are exactly those the
+    /// crate can produce.
+    #[derive(Debug, Clone, PartialEq, Eq)]
+    pub struct VerifPoly(Polynomial);
+
+    impl VerifPoly {
+        /// `Polynomial::from_coefficients_vec`
+        pub fn new(coeffs: Vec<BlsScalar>) -> Self {
+            Self(Polynomial::from_coefficients_vec(coeffs))
+        }
+        /// The stored coefficient vector, as is.
+        pub fn coeffs(&self) -> Vec<BlsScalar> {
+            self.0.to_vec()
+        }
+        /// `Polynomial::degree`
+        pub fn degree(&self) -> usize {
+            self.0.degree()
+        }
+        /// `Polynomial::is_zero`
+        pub fn is_zero(&self) -> bool {
+            self.0.is_zero()
+        }
+        /// `&a + &b`
+        pub fn add(&self, o: &Self) -> Self {
+            Self(&self.0 + &o.0)
+        }
+        /// `&a - &b`
+        pub fn sub(&self, o: &Self) -> Self {
+            Self(&self.0 - &o.0)
+        }
+        /// `&a * &b`
+        pub fn mul(&self, o: &Self) -> Self {
+            Self(&self.0 * &o.0)
+        }
+        /// `&a * &scalar`
+        pub fn scale(&self, s: &BlsScalar) -> Self {
+            Self(&self.0 * s)
+        }
+        /// `&a + &scalar`
+        pub fn add_scalar(&self, s: &BlsScalar) -> Self {
+            Self(&self.0 + s)
+        }
+        /// `&a - &scalar`
+        pub fn sub_scalar(&self, s: &BlsScalar) -> Self {
+            Self(&self.0 - s)
+        }
+        /// `a += &b`
+        pub fn add_assign(&mut self, o: &Self) {
+            self.0 += &o.0;
+        }
+        /// `a += (f, &b)`
+        pub fn add_assign_scaled(&mut self, f: BlsScalar, o: &Self) {
+            self.0 += (f, &o.0);
+        }
+        /// `a -= &b`
+        pub fn sub_assign(&mut self, o: &Self) {
+            self.0 -= &o.0;
+        }
+        /// `-a`
+        pub fn neg(&self) -> Self {
+            Self(-self.0.clone())
+        }
+        /// `Polynomial::evaluate`
+        pub fn evaluate(&self, z: &BlsScalar) -> BlsScalar {
+            self.0.evaluate(z)
+        }
+        /// `Polynomial::ruffini`
+        pub fn ruffini(&self, z: BlsScalar) -> Self {
+            Self(self.0.ruffini(z))
+        }
+        /// `Polynomial::to_var_bytes`
+        pub fn to_var_bytes(&self) -> Vec<u8> {
+            self.0.to_var_bytes()
+        }
+        /// `Polynomial::from_slice`
+        pub fn from_slice(bytes: &[u8]) -> Result<Self, Error> {
+            Polynomial::from_slice(bytes).map(Self)
+        }
+    }
+
+    /// `pp.trim(trim)` then `CommitKey::commit`.
+    pub fn kzg_commit(
+        pp: &PublicParameters,
+        trim: usize,
+        poly: &VerifPoly,
+    ) -> Result<G1Affine, Error> {
+        let (ck, _) = pp.trim(trim)?;
+        ck.commit(&poly.0).map(|c| c.0)
+    }
+
+    /// `pp.trim(trim)`: the trimmed commit key in its checked encoding
+    /// (`CommitKey::to_var_bytes`) and the opening key bytes.
+    pub fn kzg_trim(
+        pp: &PublicParameters,
+        trim: usize,
+    ) -> Result<(Vec<u8>, Vec<u8>), Error> {
+        use dusk_bytes::Serializable;
+        let (ck, ok) = pp.trim(trim)?;
+        Ok((ck.to_var_bytes(), ok.to_bytes().to_vec()))
+    }
+
+    /// `CommitKey::compute_aggregate_witness`
+    pub fn kzg_aggregate_witness(
+        polys: &[&VerifPoly],
+        point: &BlsScalar,
+        v_challenge: &BlsScalar,
+    ) -> VerifPoly {
+        let polys: Vec<&Polynomial> = polys.iter().map(|p| &p.0).collect();
+        VerifPoly(CommitKey::compute_aggregate_witness(
+            &polys,
+            point,
+            v_challenge,
+        ))
+    }
+
+    /// One KZG opening: `(witness commitment, claimed evaluation, polynomial
+    /// commitment)`.
+    pub type VerifOpening = (G1Affine, BlsScalar, G1Affine);
+
+    /// `AggregateProof::flatten` of an aggregate with the given witness and
+    /// `(evaluation, commitment)` parts (at least one part).
+    pub fn kzg_flatten(
+        witness: G1Affine,
+        parts: &[(BlsScalar, G1Affine)],
+        v_challenge: &BlsScalar,
+    ) -> VerifOpening {
+        let mut agg = AggregateProof::with_witness(Commitment(witness));
+        for (e, c) in parts {
+            agg.add_part((*e, Commitment(*c)));
+        }
+        let p = agg.flatten(v_challenge);
+        (
+            p.commitment_to_witness.0,
+            p.evaluated_point,
+            p.commitment_to_polynomial.0,
+        )
+    }
+
+    /// `OpeningKey::batch_check` with a fresh transcript created from
+    /// `transcript_label`.
+    pub fn kzg_batch_check(
+        pp: &PublicParameters,
+        points: &[BlsScalar],
+        openings: &[VerifOpening],
+        transcript_label: &'static [u8],
+    ) -> Result<(), Error> {
+        let proofs: Vec<KzgProof> = openings
+            .iter()
+            .map(|(w, e, c)| KzgProof {
+                commitment_to_witness: Commitment(*w),
+                evaluated_point: *e,
+                commitment_to_polynomial: Commitment(*c),
+            })
+            .collect();
+        let mut transcript = Transcript::new(transcript_label);
+        pp.opening_key.batch_check(points, &proofs, &mut transcript)
+    }
+}
